@@ -146,6 +146,28 @@ Proof.
 Qed.
 Print Assumptions C04_Rz_agree.
 
+(* Twist3.Rx/Ry/Rz(t) with a scalar angle (accepted since /repo commit e531d4d): the twist is t times the unit rotational
+   twist about the axis, and its exponential -- by .SE3() and by .exp() -- is the same matrix as SE3.Rx/Ry/Rz(t).
+   The trace is the path |t| >= 10 eps of trexp (theta = |t|, axis w/|t|); t = 0 gives the identity (oracle). *)
+Lemma abs_trig (t : R) : t <> 0 -> cos (Rabs t) = cos t /\ t * (1 / Rabs t) * sin (Rabs t) = sin t.
+Proof.
+  intros Ht. destruct (Rlt_dec 0 t) as [P|N].
+  - rewrite Rabs_right by lra. split; [reflexivity | field; lra].
+  - assert (t < 0) by lra. rewrite Rabs_left by lra. rewrite cos_neg, sin_neg. split; [reflexivity | field; lra].
+Qed.
+
+Theorem C04_Twist3_Rxyz_agree : forall t : R, t <> 0 ->
+  tr_Tw3_Rx_S Rops t = (0,0,0,t,0,0) /\ tr_Tw3_Ry_S Rops t = (0,0,0,0,t,0) /\ tr_Tw3_Rz_S Rops t = (0,0,0,0,0,t) /\
+  tr_Tw3_Rx_SE3 Rops t = tr_SE3_Rx Rops t /\ tr_Tw3_Rx_exp Rops t = tr_SE3_Rx Rops t /\
+  tr_Tw3_Ry_SE3 Rops t = tr_SE3_Ry Rops t /\ tr_Tw3_Ry_exp Rops t = tr_SE3_Ry Rops t /\
+  tr_Tw3_Rz_SE3 Rops t = tr_SE3_Rz Rops t /\ tr_Tw3_Rz_exp Rops t = tr_SE3_Rz Rops t.
+Proof.
+  intros t Ht. destruct (abs_trig t Ht) as [Ec Es].
+  repeat split; autounfold with smgen smlin; sm_simpl; rewrite ?Ec;
+  tuple_eq ltac:(first [reflexivity | ring | (rewrite <- Es; ring)]).
+Qed.
+Print Assumptions C04_Twist3_Rxyz_agree.
+
 Theorem C04_planar_angle : forall t : R,
   tr_SO2_ang Rops t = rot2_cs Rops (cos t) (sin t) /\ tr_SE2_ang Rops t = rt2tr2 Rops (tr_SO2_ang Rops t) (0,0).
 Proof. intros; split; gen_ring. Qed.
